@@ -226,6 +226,17 @@ func Run(sc Scenario) Result {
 			} else {
 				err = b.RemoveNode(ctx, "rn")
 			}
+		case "renode":
+			// a node that still holds pending work and calls back into the Broker when closed is replaced under its id
+			// once no pipeline lists it: whatever RegisterNode does with the old one, it returns, and so do later calls
+			mustNil(b.RemovePipeline("outer", "outer"))
+			err = b.RegisterNode("gf", &gated.Filter{Broker: b, Expiration: time.Second})
+			if err == nil {
+				err = b.RegisterNode("rn", &reent{b: b, cb: "none", wg: &wg})
+			}
+			b.Send(ctx, "inner", "after the nodes were replaced")
+			b.RegisterPipeline(eventlogger.Pipeline{PipelineID: "outer", EventType: "outer", NodeIDs: []eventlogger.NodeID{"gf", "rn", "fmt", "out"}})
+			b.Send(ctx, "outer", &gpay{Payload: gated.Payload{ID: "again"}, g: gt})
 		case "reopen":
 			err = b.Reopen(ctx)
 		case "failed":
@@ -473,6 +484,10 @@ func Scenarios() []Scenario {
 		add(Scenario{Op: "removenode", Cb: "gated", Pending: k})
 		add(Scenario{Op: "send", Cb: "gated", Pending: k})
 		add(Scenario{Op: "race", Cb: "gated", Pending: k})
+	}
+	for k := 0; k <= 2; k++ {
+		add(Scenario{Op: "renode", Cb: "gated", Pending: k})
+		add(Scenario{Op: "renode", Cb: "close", Pending: k})
 	}
 	for _, w := range []bool{false, true} {
 		add(Scenario{Op: "rpan", Cb: "close", Writer: w})
